@@ -105,6 +105,12 @@ pub const ALPHABETS: &[&[&str]] = &[
 ];
 
 pub const HOSTILE: &[&str] = &[
+    // (an extension that starts with a multi-byte character, then trailing separators)
+    "a.\u{e9}//",
+    "a.\u{e9}/.",
+    "n.\u{20ac}//",
+    "x.\u{1f600}//",
+    ".\u{e9}",
     "",
     "~",
     "~x",
